@@ -279,6 +279,10 @@ func (c *Ctx) ruleU2(rule string) {
 		c.Lost(rule, "writes into KnowledgeContext")
 	}
 	// compiled rule entities / AST nodes are written only at compile time
+	nScanned := 0
+	defer func() {
+		c.Check(rule, "compiled-rules#ast-store-scan", nScanned >= 100, 0, "%d functions outside the compile step were searched for stores into nodes of compiled rules (at least 100 expected)", nScanned)
+	}()
 	for _, f := range c.AllFns {
 		if f.Pkg == nil {
 			continue
@@ -290,6 +294,7 @@ func (c *Ctx) ruleU2(rule string) {
 		if pk == pBase && (strings.HasPrefix(rootOf(f).Name(), "Accept") || strings.HasPrefix(rootOf(f).Name(), "New")) {
 			continue
 		}
+		nScanned++
 		eachInstr(f, func(in ssa.Instruction) {
 			// memory hanging off a node (the elements of a slice or map held in one of its fields)
 			// is shared in the same way as the node itself
@@ -438,6 +443,17 @@ func (c *Ctx) ruleU3(rule string) {
 				return
 			}
 			pub = st
+			// `for _, rb := range gp.rbSlice { rb.Kc = kc }`: every element of the slice
+			if s, _, isRange := x.rangedSlice(u); isRange {
+				if b2, is := x.isFieldLoad(s, "GenginePool", "rbSlice"); is && x.Origin(b2) == gp {
+					if gs := x.GuardsOfInLoop(st.Block()); len(gs) > 0 {
+						why = "the store is conditional inside the instance loop (" + x.describeGuards(gs) + ")"
+						return
+					}
+					okLoop = true
+					return
+				}
+			}
 			cell := x.Cell(ia.Index)
 			if cell == nil {
 				why = "index is not a loop counter"
